@@ -17,6 +17,23 @@
 #include <gatery/export/vhdl/VHDLExport.h>
 #include <gatery/scl/synthesisTools/GHDL.h>
 #include <gatery/simulation/ReferenceSimulator.h>
+#include <gatery/export/vhdl/AST.h>
+#include <gatery/export/vhdl/Entity.h>
+#include <gatery/export/vhdl/Block.h>
+#include <gatery/export/vhdl/Process.h>
+#include <gatery/export/vhdl/GenericMemoryEntity.h>
+#include <gatery/hlim/coreNodes/Node_Signal.h>
+#include <gatery/hlim/coreNodes/Node_Logic.h>
+#include <gatery/hlim/coreNodes/Node_Arithmetic.h>
+#include <gatery/hlim/coreNodes/Node_Compare.h>
+#include <gatery/hlim/coreNodes/Node_Rewire.h>
+#include <gatery/hlim/coreNodes/Node_Constant.h>
+#include <gatery/hlim/coreNodes/Node_Multiplexer.h>
+#include <gatery/hlim/coreNodes/Node_PriorityConditional.h>
+#include <gatery/hlim/coreNodes/Node_Register.h>
+#include <gatery/hlim/coreNodes/Node_Pin.h>
+#include <gatery/hlim/supportNodes/Node_ExportOverride.h>
+#include <gatery/hlim/supportNodes/Node_Attributes.h>
 #include <iostream>
 #include <fstream>
 #include <filesystem>
@@ -36,7 +53,7 @@ struct Opts {
 	bool undefStim = false;
 	bool triNaive = false;    // bidirectional pin: the simulation process releases the pin with 'Z' while the design drives it
 	bool setAtPowerOn = false; // first SETs are issued at power-on (time 0, outside the event loop) instead of after a short wait
-	unsigned extra = 0;       // bit mask of extra blocks
+	unsigned extra = 0;       // bit mask of extra parts: 1 wide arithmetic, 2 memory, 4 tristate pin, 8 BLOCK (area with an entity inside)
 	uint64_t extraSeed = 0;
 };
 
@@ -89,6 +106,25 @@ static void buildExtras(Extra &x, const Opts &o, const Clock &clock)
 		auto p = pinOut(rd).setName("x_mrd"); x.outPins.push_back(p.node()); x.outWidths.push_back(dw);
 		x.desc += std::string(" mem=") + std::to_string(aw) + "x" + std::to_string(dw) + (syncRead ? "s" : "a") + (init ? "i" : "");
 	}
+	if (o.extra & 8) { // a plain area that contains an entity and logic of its own: exported as a BLOCK with local signals
+		size_t w = 1 + rng.below(6);
+		UInt a = pinIn(BitWidth(w)).setName("x_ba"); UInt b = pinIn(BitWidth(w)).setName("x_bb"); Bit c = pinIn().setName("x_bc");
+		addIn(x, a); addIn(x, b); addIn(x, c);
+		UInt res = ConstUInt(0, BitWidth(w));
+		{
+			GroupScope blk(GroupScope::GroupType::AREA, "x_blk"); // NodeGroupType::AREA with an entity inside: Entity::buildFrom makes a Block
+			UInt t = a ^ b;
+			UInt inner;
+			{
+				Area ent("x_inner", true);
+				inner = reg(t + a, ConstUInt(1, BitWidth(w)));
+				IF (c) inner = ~inner;
+			}
+			res = inner | t;
+		}
+		auto p = pinOut(res).setName("x_bres"); x.outPins.push_back(p.node()); x.outWidths.push_back(w);
+		x.desc += " block=" + std::to_string(w);
+	}
 	if (o.extra & 4) { // tristate pin
 		size_t w = rng.below(3) == 0 ? 0 : 1 + rng.below(6);
 		Bit en = pinIn().setName("x_ten"); addIn(x, en); x.triEnable = (int) x.inPins.size() - 1;
@@ -108,6 +144,103 @@ static void buildExtras(Extra &x, const Opts &o, const Clock &clock)
 }
 
 // ---------------------------------------------------------------------------------------------------------------------
+// dump of the exporter's view of every process (what formatExpression / writeVHDL work on): declared names and types of the
+// process' inputs / outputs / locals / constants, the nodes, the register configuration.  Protected members are read through
+// member pointers obtained in derived classes (no change to gatery needed).
+
+struct BBAccess : vhdl::BasicBlock { static auto procs() { return &BBAccess::m_processes; } static auto consts() { return &BBAccess::m_constants; } };
+struct PrAccess : vhdl::Process { static auto nodes() { return &PrAccess::m_nodes; } static auto consts() { return &PrAccess::m_constants; } static auto name() { return &PrAccess::m_name; } };
+struct RpAccess : vhdl::RegisterProcess { static auto cfg() { return &RpAccess::m_config; } };
+
+static const char *dtName(vhdl::VHDLDataType t) {
+	switch (t) { case vhdl::VHDLDataType::BOOL: return "BOOL"; case vhdl::VHDLDataType::STD_LOGIC: return "SL"; case vhdl::VHDLDataType::STD_LOGIC_VECTOR: return "SLV"; case vhdl::VHDLDataType::UNSIGNED: return "UNS"; default: return "OTHER"; }
+}
+static std::string npStr(const hlim::NodePort &np) { return np.node ? std::to_string(np.node->getId()) + ":" + std::to_string(np.port) : std::string("-"); }
+static std::string ctStr(const hlim::ConnectionType &ct) { return (ct.isBool() ? "B" : ct.isBitVec() ? "V" : "O") + std::to_string(ct.width); }
+
+static void dumpNode(std::ostream &o, hlim::BaseNode *n)
+{
+	o << "xnode " << n->getId() << ' ';
+	std::ostringstream extra;
+	std::string kind = "other";
+	if (dynamic_cast<hlim::Node_Signal*>(n)) kind = "signal";
+	else if (auto *l = dynamic_cast<hlim::Node_Logic*>(n)) { kind = "logic"; static const char *ops[] = {"AND", "NAND", "OR", "NOR", "XOR", "EQ", "NOT"}; extra << " op=" << ops[l->getOp()]; }
+	else if (auto *a = dynamic_cast<hlim::Node_Arithmetic*>(n)) { kind = "arith"; static const char *ops[] = {"ADD", "SUB", "MUL", "DIV", "REM"}; extra << " op=" << ops[a->getOp()]; }
+	else if (auto *c = dynamic_cast<hlim::Node_Compare*>(n)) { kind = "compare"; static const char *ops[] = {"EQ", "NEQ", "LT", "GT", "LEQ", "GEQ"}; extra << " op=" << ops[c->getOp()]; }
+	else if (auto *r = dynamic_cast<hlim::Node_Rewire*>(n)) {
+		kind = "rewire"; extra << " ranges=";
+		bool first = true;
+		for (auto &rg : r->getOp().ranges) {
+			extra << (first ? "" : ";") << rg.subwidth << ','; first = false;
+			switch (rg.source) { case hlim::Node_Rewire::OutputRange::INPUT: extra << "I," << rg.inputIdx << ',' << rg.inputOffset; break;
+				case hlim::Node_Rewire::OutputRange::CONST_ZERO: extra << "Z"; break; case hlim::Node_Rewire::OutputRange::CONST_ONE: extra << "O"; break; default: extra << "X"; }
+		}
+		if (first) extra << '-';
+	}
+	else if (auto *c = dynamic_cast<hlim::Node_Constant*>(n)) { kind = "const"; extra << " val=" << (c->getValue().size() ? vh::bitsToString(c->getValue()) : std::string("-")); }
+	else if (dynamic_cast<hlim::Node_Multiplexer*>(n)) kind = "mux";
+	else if (dynamic_cast<hlim::Node_PriorityConditional*>(n)) kind = "prio";
+	else if (dynamic_cast<hlim::Node_Register*>(n)) kind = "reg";
+	else if (auto *p = dynamic_cast<hlim::Node_Pin*>(n)) { kind = "pin"; extra << " dir=" << (p->isBiDirectional() ? "inout" : p->isInputPin() ? "in" : "out"); }
+	else if (dynamic_cast<hlim::Node_ExportOverride*>(n)) kind = "expoverride";
+	else if (dynamic_cast<hlim::Node_Attributes*>(n)) kind = "attribs";
+	else kind = std::string("other:") + n->getTypeName();
+	o << kind << " out=";
+	for (size_t i = 0; i < n->getNumOutputPorts(); i++) o << (i ? "," : "") << ctStr(n->getOutputConnectionType(i));
+	if (n->getNumOutputPorts() == 0) o << '-';
+	o << " in=";
+	for (size_t i = 0; i < n->getNumInputPorts(); i++) o << (i ? "," : "") << npStr(n->getDriver(i));
+	if (n->getNumInputPorts() == 0) o << '-';
+	o << extra.str() << '\n';
+}
+
+static void dumpProcesses(std::ostream &o, vhdl::BasicBlock *bb, const std::string &entityName)
+{
+	for (auto &proc : bb->*BBAccess::procs()) {
+		auto *reg = dynamic_cast<vhdl::RegisterProcess*>(proc.get());
+		auto &ns = proc->getNamespaceScope();
+		o << "xproc " << entityName << ' ' << proc.get()->*PrAccess::name() << ' ' << (reg ? "reg" : "comb") << '\n';
+		auto decl = [&](const hlim::NodePort &np, const char *cls) {
+			const auto &d = ns.get(np);
+			o << "xdecl " << npStr(np) << ' ' << d.name << ' ' << dtName(d.dataType) << ' ' << cls << '\n';
+		};
+		for (auto &np : proc->getInputs()) decl(np, "in");
+		for (auto &np : proc->getOutputs()) decl(np, "out");
+		for (auto &np : proc->getLocalSignals()) decl(np, "local");
+		for (auto &np : proc.get()->*PrAccess::consts()) decl(np, "const");
+		for (auto &np : proc->getNonVariableSignals()) decl(np, "nonvar");
+		std::set<hlim::BaseNode*> seen;
+		std::vector<hlim::BaseNode*> work(( proc.get()->*PrAccess::nodes()).begin(), (proc.get()->*PrAccess::nodes()).end());
+		// plus the drivers the nodes refer to (pins, constants used as reset values, named inputs)
+		for (size_t i = 0; i < work.size(); i++) {
+			auto *n = work[i];
+			if (!seen.insert(n).second) continue;
+			bool inProc = std::find((proc.get()->*PrAccess::nodes()).begin(), (proc.get()->*PrAccess::nodes()).end(), n) != (proc.get()->*PrAccess::nodes()).end();
+			if (auto *pin = dynamic_cast<hlim::Node_Pin*>(n); pin && inProc) { const auto &d = ns.get(pin); o << "xpin " << pin->getId() << ' ' << d.name << ' ' << dtName(d.dataType) << '\n'; }
+			dumpNode(o, n);
+			if (inProc)
+				for (size_t k = 0; k < n->getNumInputPorts(); k++) if (n->getDriver(k).node) work.push_back(n->getDriver(k).node);
+			if (auto *r = dynamic_cast<hlim::Node_Register*>(n)) if (auto rv = r->getNonSignalDriver(hlim::Node_Register::RESET_VALUE); rv.node) { o << "xresetval " << r->getId() << ' ' << rv.node->getId() << '\n'; work.push_back(rv.node); }
+		}
+		o << "xorder"; for (auto *n : proc.get()->*PrAccess::nodes()) o << ' ' << n->getId(); o << '\n';
+		if (reg) {
+			const auto &cfg = reg->*RpAccess::cfg();
+			o << "xregcfg clock=" << ns.getClock(cfg.clock).name << " reset=" << (cfg.reset ? ns.getReset(cfg.reset).name : std::string("-"))
+			  << " kind=" << (cfg.reset == nullptr ? "none" : cfg.resetType == hlim::RegisterAttributes::ResetType::SYNCHRONOUS ? "sync" : cfg.resetType == hlim::RegisterAttributes::ResetType::ASYNCHRONOUS ? "async" : "none")
+			  << " high=" << cfg.resetHighActive << " trig=" << (cfg.triggerEvent == hlim::Clock::TriggerEvent::RISING ? 'R' : cfg.triggerEvent == hlim::Clock::TriggerEvent::FALLING ? 'F' : 'B') << '\n';
+		}
+		o << "xend\n";
+	}
+}
+
+static void dumpExporterView(std::ostream &o, vhdl::AST *ast)
+{
+	for (auto &e : ast->getEntities()) {
+		if (dynamic_cast<vhdl::GenericMemoryEntity*>(e.get())) continue; // written by its own code, not by Process.cpp
+		dumpProcesses(o, e.get(), e->getName());
+		for (auto &b : e->getBlocks()) dumpProcesses(o, b.get(), e->getName());
+	}
+}
 
 static void dumpFile(std::ostream &o, const std::string &tag, const fs::path &p)
 {
@@ -189,6 +322,18 @@ static bool runOne(uint64_t k, const vh::Recipe &recipe, const Opts &o, uint64_t
 		}
 		Clock &clock = *b.clock;
 		size_t reads = 0;
+		bool refUndefined = false; // some node output of the reference simulation held an undefined bit at a sample point
+		auto scanUndefined = [&]() {
+			if (refUndefined) return;
+			for (auto &n : design.getCircuit().getNodes())
+				for (size_t p = 0; p < n->getNumOutputPorts(); p++) {
+					if (sim.outputOptimizedAway({.node = n.get(), .port = p})) continue;
+					if (auto *pin = dynamic_cast<hlim::Node_Pin*>(n.get()); pin && !pin->isInputPin()) continue;
+					auto ct = n->getOutputConnectionType(p);
+					if (ct.type != hlim::ConnectionType::BOOL && ct.type != hlim::ConnectionType::BITVEC) continue;
+					if (!sim::allDefined(sim.getValueOfOutput({.node = n.get(), .port = p}))) { refUndefined = true; return; }
+				}
+		};
 		sim.addSimulationProcess([&]() -> SimProcess {
 			if (!o.setAtPowerOn) co_await WaitFor(Seconds{1, 16} / clock.absoluteFrequency());
 			for (auto &row : st.cycles) {
@@ -196,19 +341,25 @@ static bool runOne(uint64_t k, const vh::Recipe &recipe, const Opts &o, uint64_t
 					if (inPins[i]) sim.simProcSetInputPin(inPins[i], extFromString(row[i]));
 				if (o.style == 1) co_await WaitFor(Seconds{1, 3} / clock.absoluteFrequency());
 				if (o.style == 2) co_await WaitStable();
-				if (o.style != 0)
+				if (o.style != 0) {
 					for (auto *p : outPins) if (p->getDriver(0).node) { sim.simProcGetValueOfOutput(p->getDriver(0)); reads++; }
+					scanUndefined();
+				}
 				co_await OnClk(clock);
-				if (o.style == 0)
+				if (o.style == 0) {
 					for (auto *p : outPins) if (p->getDriver(0).node) { sim.simProcGetValueOfOutput(p->getDriver(0)); reads++; }
+					scanUndefined();
+				}
 			}
 		});
 		sim.powerOn();
 		sim.advance(hlim::ClockRational(ncycles + 1, 1) / clock.absoluteFrequency());
+		std::ostringstream xview;
+		dumpExporterView(xview, vhdl->getAST());
 		vhdl.reset(); // flushes the recorder
 		stage = "dump";
 		os << "case " << k << " reset=" << o.resetKind << (o.resetLow ? "L" : "H") << " trig=" << o.trigger << " mode=" << o.mode << " areas=" << o.areas << " names=" << o.names
-		   << " style=" << o.style << " undef=" << o.undefStim << " pon=" << o.setAtPowerOn << " tri=" << ((o.extra & 4) ? (o.triNaive ? 2 : 1) : 0) << " extra=" << o.extra << " ncycles=" << ncycles << " reads=" << reads << " nodes=" << design.getCircuit().getNodes().size() << '\n';
+		   << " style=" << o.style << " undef=" << o.undefStim << " rundef=" << refUndefined << " pon=" << o.setAtPowerOn << " tri=" << ((o.extra & 4) ? (o.triNaive ? 2 : 1) : 0) << " extra=" << o.extra << " ncycles=" << ncycles << " reads=" << reads << " nodes=" << design.getCircuit().getNodes().size() << '\n';
 		os << "xdesc" << (x.desc.empty() ? " -" : x.desc) << '\n';
 		os << recipe.toString();
 		std::vector<fs::path> files;
@@ -217,14 +368,16 @@ static bool runOne(uint64_t k, const vh::Recipe &recipe, const Opts &o, uint64_t
 		for (auto &f : files) dumpFile(os, "file", f);
 		dumpFile(os, "tb", dir / "testbench.vhd");
 		dumpFile(os, "vectors", dir / "testbench.testvectors");
+		os << xview.str();
 		os << "end\n";
 		ok = true;
 	} catch (const std::exception &e) {
 		os.str("");
-		os << "# case " << k << " not exportable at stage " << stage << ": " << oneLine(e.what()) << '\n';
+		os << "# case " << k << " (reset=" << o.resetKind << " trig=" << o.trigger << " mode=" << o.mode << " areas=" << o.areas << " extra=" << o.extra
+		   << ") not exportable at stage " << stage << ": " << oneLine(e.what()) << '\n';
 		os << "skip " << k << ' ' << stage << '\n';
 	}
-	fs::remove_all(dir, ec);
+	if (!getenv("C02_KEEP")) fs::remove_all(dir, ec);
 	out << os.str();
 	return ok;
 }
@@ -257,8 +410,9 @@ int main(int argc, char **argv)
 		o.style = (unsigned) rng.below(3);
 		o.undefStim = (flags & 32) && rng.chance(1, 2);
 		o.setAtPowerOn = (flags & 64) && rng.chance(1, 2);
-		if (flags & 16) { if (rng.chance(1, 2)) o.extra = (unsigned) rng.below(8); }
+		if (flags & 16) { if (rng.chance(1, 2)) o.extra = (unsigned) rng.below(16); }
 		o.triNaive = (flags & 128) && rng.chance(1, 2);
+		if ((o.extra & 4) && o.triNaive) o.setAtPowerOn = false; // at most one of the two recorder findings per case
 		o.extraSeed = rng.next();
 		uint64_t decoSeed = rng.next(), stimSeed = rng.next();
 		size_t ncycles = 6 + rng.below(12);
